@@ -22,6 +22,7 @@ from conductor.errors import (
     TaskNonZeroExit,
     ConductorAbort,
 )
+from conductor.errors.signal import defer_abort
 from conductor.execution.handle import OperationExecutionHandle
 from conductor.execution.ops.operation import Operation
 from conductor.execution.operation_state import OperationState
@@ -112,16 +113,20 @@ class RunTaskExecutable(Operation):
                 self._output_path / STDERR_LOG_FILE, record_type
             )
 
-            process = subprocess.Popen(
-                [self._run],
-                shell=True,
-                cwd=self._working_path,
-                executable="/bin/bash",
-                stdout=stdout_output.popen_arg(),
-                stderr=stderr_output.popen_arg(),
-                env=env_vars,
-                start_new_session=True,
-            )
+            # If we are interrupted while `Popen()` is running, the abort is
+            # raised once it has returned (so that the new process, if any, is
+            # terminated by the handler below).
+            with defer_abort():
+                process = subprocess.Popen(
+                    [self._run],
+                    shell=True,
+                    cwd=self._working_path,
+                    executable="/bin/bash",
+                    stdout=stdout_output.popen_arg(),
+                    stderr=stderr_output.popen_arg(),
+                    env=env_vars,
+                    start_new_session=True,
+                )
 
             stdout_output.maybe_tee(process.stdout, sys.stdout, ctx)
             stderr_output.maybe_tee(process.stderr, sys.stderr, ctx)
